@@ -1,5 +1,4 @@
 """C03 — a call returns its own reply or fails; never another call's answer."""
-import ast
 import json
 import os
 
@@ -44,294 +43,11 @@ EVS = ["ok", "lo", "la", "cu", "rb", "ra", "st", "sh", "sq", "du", "in"]
 
 
 # =====================================================================================================
-# A: extractor
+# A: extractor  (harness/props/c03_extract.py: facts are obtained by probing the real objects, not from syntax)
 # =====================================================================================================
-def _cls(tree, name):
-    r = [n for n in tree.body if isinstance(n, ast.ClassDef) and n.name == name]
-    if not r:
-        raise ValueError("class %s not found" % name)
-    return r[0]
-
-
-def _fn(node, name):
-    r = [n for n in node.body if isinstance(n, ast.FunctionDef) and n.name == name]
-    if not r:
-        raise ValueError("function %s not found" % name)
-    return r[0]
-
-
-def _attr_chain(n):
-    out = []
-    while isinstance(n, ast.Attribute):
-        out.append(n.attr)
-        n = n.value
-    if isinstance(n, ast.Name):
-        out.append(n.id)
-    return ".".join(reversed(out))
-
-
-def _exc_names(handler):
-    t = handler.type
-    elts = t.elts if isinstance(t, ast.Tuple) else [t]
-    return [_attr_chain(e).split(".")[-1] for e in elts]
-
-
-def _calls_in(node):
-    return [n for n in ast.walk(node) if isinstance(n, ast.Call)]
-
-
-def _accepts(fn_node):
-    for c in _calls_in(fn_node):
-        if _attr_chain(c.func).endswith("recv_stub"):
-            return [e.attr for e in c.args[1].elts]
-    raise ValueError("recv_stub call not found")
-
-
-def _lean_strs(xs):
-    return "[" + ", ".join(json.dumps(x) for x in xs) + "]"
-
-
 def extract():
-    common.repo_on_path()
-    from Pyro5 import client, server, protocol, errors, config
-    ctree = ast.parse(open(client.__file__).read())
-    proxy = _cls(ctree, "Proxy")
-    inv = _fn(proxy, "_pyroInvoke")
-    tries = [n for n in inv.body if isinstance(n, ast.Try)]
-    if len(tries) != 1:
-        raise ValueError("_pyroInvoke: expected exactly one try statement")
-    tr = tries[0]
-    pre = inv.body[:inv.body.index(tr)]
-    # --- before the try: connect when there is no connection, sequence increment
-    pretry = []
-    seq_inc = seq_mask = None
-    for st in pre:
-        if isinstance(st, ast.If) and isinstance(st.test, ast.Compare) and _attr_chain(st.test.left) == "self._pyroConnection" \
-                and isinstance(st.test.ops[0], ast.Is) and any(_attr_chain(c.func).endswith("__pyroCreateConnection") for c in _calls_in(st)):
-            pretry.append("connect-if-none")
-        if isinstance(st, ast.Assign) and _attr_chain(st.targets[0]) == "self._pyroSeq":
-            v = st.value
-            if isinstance(v, ast.BinOp) and isinstance(v.op, ast.BitAnd) and isinstance(v.right, ast.Constant) \
-                    and isinstance(v.left, ast.BinOp) and isinstance(v.left.op, ast.Add) \
-                    and _attr_chain(v.left.left) == "self._pyroSeq" and isinstance(v.left.right, ast.Constant):
-                seq_inc, seq_mask = v.left.right.value, v.right.value
-                pretry.append("seq-increment")
-    if seq_inc is None:
-        raise ValueError("_pyroInvoke: `self._pyroSeq = (self._pyroSeq + c) & mask` not found before the try")
-    # --- inside the try, in source order
-    order = []
-    for n in sorted((x for x in ast.walk(tr) if hasattr(x, "lineno") and x not in tr.handlers), key=lambda x: (x.lineno, x.col_offset)):
-        if any(n in ast.walk(h) for h in tr.handlers):
-            continue
-        if isinstance(n, ast.Call):
-            f = _attr_chain(n.func)
-            if f == "self._pyroConnection.send":
-                order.append("send")
-            elif f.endswith("recv_stub"):
-                order.append("recv")
-            elif f.endswith("__pyroCheckSequence"):
-                order.append("check-seq")
-            elif f == "serializer.loads":
-                order.append("loads")
-        if isinstance(n, ast.If) and isinstance(n.test, ast.Compare) and _attr_chain(n.test.left) == "msg.serializer_id" \
-                and any(isinstance(x, ast.Raise) for x in ast.walk(n)):
-            order.append("serializer-check")
-        if isinstance(n, ast.If) and _attr_chain(n.test) == "self._pyroRawWireResponse" and n.body and isinstance(n.body[0], ast.Return):
-            order.append("raw-return")
-        if isinstance(n, ast.If) and isinstance(n.test, ast.BinOp) and _attr_chain(n.test.right).endswith("FLAGS_ONEWAY") \
-                and n.body and isinstance(n.body[0], ast.Return) and isinstance(n.body[0].value, ast.Constant) and n.body[0].value.value is None:
-            order.append("oneway-return-none")
-    if len(tr.handlers) != 1:
-        raise ValueError("_pyroInvoke: expected one except clause")
-    h = tr.handlers[0]
-    handler = []
-    for st in h.body:
-        if isinstance(st, ast.Expr) and isinstance(st.value, ast.Call) and _attr_chain(st.value.func) == "self._pyroRelease":
-            handler.append("release")
-        elif isinstance(st, ast.Raise) and st.exc is None:
-            handler.append("reraise")
-        else:
-            handler.append("other")
-    # --- __pyroCheckSequence
-    chk = _fn(proxy, "__pyroCheckSequence")
-    cs = []
-    st = chk.body[0]
-    if isinstance(st, ast.If) and isinstance(st.test, ast.Compare):
-        cs = [type(st.test.ops[0]).__name__, _attr_chain(st.test.left), _attr_chain(st.test.comparators[0])]
-        cs += [_attr_chain(r.exc.func).split(".")[-1] for r in ast.walk(st) if isinstance(r, ast.Raise) and isinstance(r.exc, ast.Call)]
-    # --- _pyroRelease sets the connection to None
-    rel = _fn(proxy, "_pyroRelease")
-    rel_clears = any(isinstance(n, ast.Assign) and _attr_chain(n.targets[0]) == "self._pyroConnection"
-                     and isinstance(n.value, ast.Constant) and n.value.value is None for n in ast.walk(rel))
-    # --- handshake
-    cc = _fn(proxy, "__pyroCreateConnection")
-    hs_accepts = _accepts(cc)
-    hs_checks_seq = any(_attr_chain(c.func).endswith("__pyroCheckSequence") for c in _calls_in(cc))
-    # --- retry loop
-    rm = _fn(_cls(ctree, "_RemoteMethod"), "__call__")
-    loop = [n for n in rm.body if isinstance(n, ast.For)]
-    if len(loop) != 1:
-        raise ValueError("_RemoteMethod.__call__: expected one for loop")
-    it = loop[0].iter
-    rng = []
-    if isinstance(it, ast.Call) and _attr_chain(it.func) == "range" and len(it.args) == 1 and isinstance(it.args[0], ast.BinOp):
-        b = it.args[0]
-        rng = [_attr_chain(b.left), type(b.op).__name__, repr(getattr(b.right, "value", "?"))]
-    rtry = [n for n in loop[0].body if isinstance(n, ast.Try)][0]
-    retry_catches = _exc_names(rtry.handlers[0])
-    # the handler re-raises only under `if attempt >= self.__max_retries`
-    hb = rtry.handlers[0].body
-    reraise = []
-    if len(hb) == 1 and isinstance(hb[0], ast.If) and isinstance(hb[0].test, ast.Compare) and not hb[0].orelse:
-        t = hb[0].test
-        reraise = [_attr_chain(t.left), type(t.ops[0]).__name__, _attr_chain(t.comparators[0])]
-        reraise += ["raise" if isinstance(x, ast.Raise) and x.exc is None else "other" for x in hb[0].body]
-    # --- who calls _pyroInvoke directly, who goes through _RemoteMethod
-    direct, via_remote = [], []
-    for c in [n for n in ctree.body if isinstance(n, ast.ClassDef)]:
-        for f in [n for n in c.body if isinstance(n, ast.FunctionDef)]:
-            for call in _calls_in(f):
-                ch = _attr_chain(call.func)
-                if ch.endswith("._pyroInvoke"):
-                    direct.append("%s.%s" % (c.name, f.name))
-                if ch == "_RemoteMethod" and c.name == "Proxy":
-                    via_remote.append("%s.%s" % (c.name, f.name))
-    # the retry budget handed to _RemoteMethod is the proxy's own setting
-    rm_args = [[(_attr_chain(a) or type(a).__name__) for a in call.args]
-               for call in _calls_in(_fn(proxy, "__getattr__")) if _attr_chain(call.func) == "_RemoteMethod"]
-    if len(rm_args) != 1:
-        raise ValueError("Proxy.__getattr__: expected one _RemoteMethod(...) call")
-    # BatchProxy.__call__: top-level statements (the recorded calls are cleared unconditionally after the submit)
-    bshape = []
-    for st in _fn(_cls(ctree, "BatchProxy"), "__call__").body:
-        if isinstance(st, ast.Assign) and _attr_chain(st.targets[0]) == "self.__calls" and isinstance(st.value, ast.List) and not st.value.elts:
-            bshape.append("clear-calls")
-        elif isinstance(st, ast.Assign) and any(_attr_chain(c.func).endswith("_pyroInvokeBatch") for c in _calls_in(st)):
-            bshape.append("submit")
-        elif isinstance(st, ast.If):
-            bshape.append("if:" + ",".join(sorted({type(x).__name__ for x in st.body})))
-        elif isinstance(st, ast.Expr) and isinstance(st.value, ast.Call):
-            bshape.append("call:" + _attr_chain(st.value.func).split(".")[-1])
-        else:
-            bshape.append(type(st).__name__)
-    nxt = _fn(_cls(ctree, "_StreamResultIterator"), "__next__")
-    precheck = any(isinstance(n, ast.If) and isinstance(n.test, ast.Compare) and _attr_chain(n.test.left) == "self.proxy._pyroConnection"
-                   and isinstance(n.test.ops[0], ast.Is) and any(isinstance(r, ast.Raise) and "ConnectionClosedError" in ast.dump(r) for r in n.body)
-                   for n in nxt.body)
-    # metadata lookup in Proxy.__getattr__ / __setattr__ before anything is sent
-    meta_lookup = []
-    for name in ("__getattr__", "__setattr__"):
-        f = _fn(proxy, name)
-        ok = any(isinstance(n, ast.If) and any(_attr_chain(c.func) == "self._pyroGetMetadata" for c in _calls_in(n)) for n in f.body)
-        if ok:
-            meta_lookup.append(name)
-    # --- errors hierarchy
-    comm = sorted(n for n, v in vars(errors).items() if isinstance(v, type) and issubclass(v, errors.CommunicationError))
-    # --- server: sequence number of every reply
-    stree = ast.parse(open(server.__file__).read())
-    daemon = _cls(stree, "Daemon")
-    reply_seq = []
-    for fname in ("handleRequest", "_sendExceptionResponse", "_handshake"):
-        f = _fn(daemon, fname)
-        for c in _calls_in(f):
-            if _attr_chain(c.func) == "protocol.SendingMessage" and len(c.args) >= 3:
-                t0 = _attr_chain(c.args[0]) or "var"
-                if t0.endswith("MSG_PING"):
-                    continue
-                reply_seq.append("%s:%s" % (fname, _attr_chain(c.args[2]) or ast.dump(c.args[2])))
-    hr = _fn(daemon, "handleRequest")
-    seq_src = [_attr_chain(n.value) for n in ast.walk(hr) if isinstance(n, ast.Assign) and _attr_chain(n.targets[0]) == "request_seq"
-               and not isinstance(n.value, ast.Constant)]
-    exc_call = [_attr_chain(c.args[1]) for c in _calls_in(hr) if _attr_chain(c.func) == "self._sendExceptionResponse"]
-    # oneway: `if request_flags & FLAGS_ONEWAY: return` precedes the reply
-    oneway_noreply = False
-    for n in ast.walk(hr):
-        if isinstance(n, ast.If) and isinstance(n.test, ast.BinOp) and _attr_chain(n.test.left) == "request_flags" \
-                and _attr_chain(n.test.right).endswith("FLAGS_ONEWAY") and n.body and isinstance(n.body[0], ast.Return) \
-                and n.body[0].value is None and n.orelse and any(_attr_chain(c.func) == "conn.send" for c in _calls_in(ast.Module(body=n.orelse, type_ignores=[]))):
-            oneway_noreply = True
-    # --- server: get_next_stream_item re-attaches a lingering stream with linger timestamp 0
-    dobj = _fn(_cls(stree, "DaemonObject"), "get_next_stream_item")
-    reattach = []
-    for n in ast.walk(dobj):
-        if isinstance(n, ast.Assign) and isinstance(n.targets[0], ast.Subscript) and _attr_chain(n.targets[0].value) == "self.daemon.streaming_responses" \
-                and isinstance(n.value, ast.Tuple):
-            reattach.append([(_attr_chain(e) or (repr(e.value) if isinstance(e, ast.Constant) else type(e).__name__)) for e in n.value.elts])
-    if len(reattach) != 1:
-        raise ValueError("get_next_stream_item: expected one re-attach assignment")
-    # --- protocol: the seq field is the 6th header field, 16 bit; type filter comes before the payload read
-    import struct
-    import re as _re
-    fields = _re.findall(r"\d*[a-zA-Z]", protocol._header_format.lstrip("!<>=@"))
-    ptree = ast.parse(open(protocol.__file__).read())
-    sm = _fn(_cls(ptree, "SendingMessage"), "__init__")
-    pack = [c for c in _calls_in(sm) if _attr_chain(c.func) == "struct.pack" and _attr_chain(c.args[0]) == "_header_format"]
-    if len(pack) != 1:
-        raise ValueError("SendingMessage: header struct.pack not found")
-    pack_args = [(_attr_chain(a) or "expr") for a in pack[0].args[1:]]
-    seq_pos = pack_args.index("seq")
-    rs = _fn(ptree, "recv_stub")
-    rs_order = []
-    for n in sorted((x for x in ast.walk(rs) if hasattr(x, "lineno")), key=lambda x: (x.lineno, x.col_offset)):
-        if isinstance(n, ast.Call) and _attr_chain(n.func) == "connection.recv":
-            rs_order.append("recv")
-        if isinstance(n, ast.If) and "accepted_msgtypes" in ast.dump(n.test) and any(isinstance(x, ast.Raise) for x in ast.walk(n)):
-            rs_order.append("type-filter")
-        if isinstance(n, ast.Call) and _attr_chain(n.func) == "msg.add_payload":
-            rs_order.append("add-payload")
-    b = lambda x: "true" if x else "false"
-    return f"""-- GENERATED by harness/props/c03.py from Pyro5/client.py, server.py, protocol.py, errors.py — do not edit
-namespace Pyro.Gen.C03
-/-- `self._pyroSeq = (self._pyroSeq + seqInc) & seqMask` in Proxy._pyroInvoke -/
-def seqInc : Nat := {seq_inc}
-def seqMask : Nat := {seq_mask}
-/-- statements of _pyroInvoke before its `try`, in order -/
-def invokePreTry : List String := {_lean_strs(pretry)}
-/-- marks inside the `try` of _pyroInvoke, in source order -/
-def invokeTryOrder : List String := {_lean_strs(order)}
-/-- message types _pyroInvoke passes to recv_stub -/
-def invokeAccepts : List String := {_lean_strs(_accepts(tr))}
-/-- exception classes of the `except` clause of _pyroInvoke, and what its body does -/
-def invokeCatches : List String := {_lean_strs(_exc_names(h))}
-def invokeHandler : List String := {_lean_strs(handler)}
-/-- __pyroCheckSequence: comparison operator, operands, exception raised -/
-def checkSeq : List String := {_lean_strs(cs)}
-/-- _pyroRelease assigns None to self._pyroConnection -/
-def releaseClears : Bool := {b(rel_clears)}
-/-- message types the handshake passes to recv_stub; does __pyroCreateConnection check the sequence number? -/
-def handshakeAccepts : List String := {_lean_strs(hs_accepts)}
-def handshakeChecksSeq : Bool := {b(hs_checks_seq)}
-/-- _RemoteMethod.__call__: `for attempt in range(<this>)`, the caught classes, the re-raise condition -/
-def retryRange : List String := {_lean_strs(rng)}
-def retryCatches : List String := {_lean_strs(retry_catches)}
-def retryReraise : List String := {_lean_strs(reraise)}
-/-- functions of client.py that call `_pyroInvoke` directly (sorted), and Proxy methods that build a _RemoteMethod -/
-def directInvokers : List String := {_lean_strs(sorted(set(direct)))}
-def remoteMethodBuilders : List String := {_lean_strs(sorted(set(via_remote)))}
-/-- arguments of the `_RemoteMethod(...)` call in Proxy.__getattr__ (the last one is the retry budget) -/
-def remoteMethodArgs : List String := {_lean_strs(rm_args[0])}
-/-- top-level statements of BatchProxy.__call__, in order -/
-def batchCallShape : List String := {_lean_strs(bshape)}
-/-- Proxy methods that fetch the metadata first; _StreamResultIterator.__next__ refuses when there is no connection -/
-def metaLookup : List String := {_lean_strs(meta_lookup)}
-def streamPrecheck : Bool := {b(precheck)}
-/-- names in Pyro5.errors that are subclasses of CommunicationError (sorted) -/
-def commErrors : List String := {_lean_strs(comm)}
-/-- sequence-number argument of every reply the daemon builds (function:expression), source of request_seq -/
-def replySeqArgs : List String := {_lean_strs(reply_seq)}
-def requestSeqSource : List String := {_lean_strs(seq_src)}
-def excReplySeqArgs : List String := {_lean_strs(exc_call)}
-def onewayNoReply : Bool := {b(oneway_noreply)}
-/-- the tuple get_next_stream_item stores when it re-attaches a stream to the connection that fetches from it -/
-def streamReattach : List String := {_lean_strs(reattach[0])}
-/-- struct format character and byte width of the header's seq field -/
-def seqFieldFormat : String := {json.dumps(fields[seq_pos])}
-def seqFieldBytes : Nat := {struct.calcsize("!" + fields[seq_pos])}
-/-- recv_stub: order of reads and the type filter -/
-def recvStubOrder : List String := {_lean_strs(rs_order)}
-def maxRetriesDefault : Nat := {int(config.MAX_RETRIES)}
-end Pyro.Gen.C03
-"""
+    from props import c03_extract
+    return c03_extract.extract()
 
 
 # =====================================================================================================
